@@ -204,3 +204,66 @@ package profile
 //@   conclude typ: d.typ == 0
 //@   conclude value: d.u64 == x
 //@   conclude consumed: len(rest) == 0
+
+// ---- C06: sample filters (regular-expression matching is an arbitrary fixed predicate match(re, s)) ----
+
+//@ spec func linematch(loc *Location, re *regexp.Regexp, i int) bool =
+//@     loc.Line[i].Function != nil && (match(re, loc.Line[i].Function.Name) || match(re, loc.Line[i].Function.Filename))
+//@ spec func mapmatch(loc *Location, re *regexp.Regexp) bool = loc.Mapping != nil && match(re, loc.Mapping.File)
+
+//@ func Location.matchesName
+//@   requires loc != nil && re != nil
+//@   ensures result <==> (exists i int :: 0 <= i && i < len(loc.Line) && linematch(loc, re, i)) || mapmatch(loc, re)
+//@   loop 1
+//@     invariant 0 <= $i && $i <= len(loc.Line)
+//@     invariant forall j int :: 0 <= j && j < $i ==> !linematch(loc, re, j)
+
+//@ func Location.lastMatchedLineIndex
+//@   requires loc != nil && re != nil
+//@   ensures none: result == -1 ==> forall j int :: 0 <= j && j < len(loc.Line) ==> !linematch(loc, re, j)
+//@   ensures last: result != -1 ==> 0 <= result && result < len(loc.Line) && linematch(loc, re, result)
+//@       && forall j int :: result < j && j < len(loc.Line) ==> !linematch(loc, re, j)
+//@   loop 1
+//@     invariant -1 <= i && i < len(loc.Line)
+//@     invariant forall j int :: i < j && j < len(loc.Line) ==> !linematch(loc, re, j)
+//@     decreases i + 1
+
+//@ func focusedAndNotIgnored
+//@   requires forall i int :: 0 <= i && i < len(locs) ==> locs[i] != nil
+//@   ensures result <==> (exists i int :: 0 <= i && i < len(locs) && has(m, locs[i].ID) && m[locs[i].ID])
+//@       && !(exists i int :: 0 <= i && i < len(locs) && has(m, locs[i].ID) && !m[locs[i].ID])
+//@   loop 1
+//@     invariant 0 <= $i && $i <= len(locs)
+//@     invariant forall j int :: 0 <= j && j < $i ==> !(has(m, locs[j].ID) && !m[locs[j].ID])
+//@     invariant f <==> exists j int :: 0 <= j && j < $i && has(m, locs[j].ID) && m[locs[j].ID]
+
+//@ func filterShowFromLocation
+//@   requires loc != nil && showFrom != nil
+//@   ensures mapping: mapmatch(loc, showFrom) ==> result && len(loc.Line) == old(len(loc.Line))
+//@   ensures result <==> old(mapmatch(loc, showFrom)) || exists i int :: 0 <= i && i < old(len(loc.Line)) && old(linematch(loc, showFrom, i))
+//@   ensures cut: !old(mapmatch(loc, showFrom)) && result ==> len(loc.Line) >= 1 && len(loc.Line) <= old(len(loc.Line))
+//@       && (forall i int :: i == len(loc.Line) - 1 ==> old(linematch(loc, showFrom, i)))
+//@       && forall j int :: len(loc.Line) <= j && j < old(len(loc.Line)) ==> !old(linematch(loc, showFrom, j))
+//@   ensures nomatch: !result ==> len(loc.Line) == old(len(loc.Line))
+
+//@ spec func keepsample(s *Sample, focus TagMatch, ignore TagMatch) bool = (focus == nil || focus(s)) && !(ignore != nil && ignore(s))
+
+//@ func Profile.FilterSamplesByTag
+//@   requires p != nil
+//@   ensures kept: forall k int :: 0 <= k && k < len(p.Sample) ==> exists i int :: 0 <= i && i < old(len(p.Sample))
+//@       && p.Sample[k] == old(p.Sample[i]) && keepsample(old(p.Sample[i]), focus, ignore)
+//@   ensures complete: forall i int :: 0 <= i && i < old(len(p.Sample)) && keepsample(old(p.Sample[i]), focus, ignore)
+//@       ==> exists k int :: 0 <= k && k < len(p.Sample) && p.Sample[k] == old(p.Sample[i])
+//@   ensures count: len(p.Sample) <= old(len(p.Sample))
+//@   ensures fm: fm <==> exists i int :: 0 <= i && i < old(len(p.Sample)) && (focus == nil || focus(old(p.Sample[i])))
+//@   ensures im: im <==> exists i int :: 0 <= i && i < old(len(p.Sample)) && ignore != nil && ignore(old(p.Sample[i]))
+//@   loop 1
+//@     invariant 0 <= $i && $i <= len(p.Sample)
+//@     invariant fresh(samples) && len(samples) <= $i
+//@     invariant forall i int :: 0 <= i && i < len(p.Sample) ==> p.Sample[i] == old(p.Sample[i])
+//@     invariant forall k int :: 0 <= k && k < len(samples) ==> exists i int :: 0 <= i && i < $i
+//@       && samples[k] == old(p.Sample[i]) && keepsample(old(p.Sample[i]), focus, ignore)
+//@     invariant forall i int :: 0 <= i && i < $i && keepsample(old(p.Sample[i]), focus, ignore)
+//@       ==> exists k int :: 0 <= k && k < len(samples) && samples[k] == old(p.Sample[i])
+//@     invariant fm <==> exists i int :: 0 <= i && i < $i && (focus == nil || focus(old(p.Sample[i])))
+//@     invariant im <==> exists i int :: 0 <= i && i < $i && ignore != nil && ignore(old(p.Sample[i]))
